@@ -99,6 +99,9 @@ def detect_and_store(seed_dir, sid, meta, result, checks, patch, demo):
             print("/repo is not clean, refusing to apply", out)
             return 2
         rc, out = sh("git apply %s" % patch, REPO)
+        if rc != 0:
+            print("patch does not apply to the current /repo tree (rebase it on the fix commits):", out)
+            return 2
         try:
             for c in checks:
                 p = subprocess.run([os.path.join(VERIF, "vcheck"), c, "quick"], cwd=VERIF, capture_output=True, text=True, timeout=3600)
